@@ -1,0 +1,12 @@
+//go:build !verif
+
+package leveldb
+
+import (
+	"github.com/syndtr/goleveldb/leveldb"
+	"github.com/syndtr/goleveldb/leveldb/opt"
+)
+
+func verifOpen(_ string, _ *opt.Options) (*leveldb.DB, bool, error) { return nil, false, nil }
+
+func verifPause(_ string) {}
